@@ -42,19 +42,28 @@ func corpus() []core.Case {
 		{Lines: []string{"@ C20 count 10,5,1,4294967296", "gen 61 5", "min 5", "max 5", "gen 61 10", "min 10", "max 10"}, Tag: "corpus"},
 		{Lines: []string{"@ C20 count 10,8589934592,1,4294967301 20,4294967295,3,12884901888", "gen 61 5", "gen 61 10", "min 10", "max 10", "gen 61 25", "min 25", "max 25"}, Tag: "corpus"},
 		{Lines: []string{"@ C20 count", "gen 61 10", "min 10", "max 10"}, Tag: "corpus"},
+		// two rules with the same period in both relative orders (Generate differs, the property holds for each)
+		{Lines: []string{"@ C20 countraw 10,5,1,4 10,7,2,3 25,2,3,2", "gen 61 9", "min 9", "max 9", "gen 61 10", "min 10", "max 10", "gen 61 24", "gen 61 25", "min 25", "max 25"}, Tag: "corpus"},
+		{Lines: []string{"@ C20 countraw 10,7,2,3 10,5,1,4 25,2,3,2", "gen 61 9", "min 9", "max 9", "gen 61 10", "min 10", "max 10", "gen 61 24", "gen 61 25", "min 25", "max 25"}, Tag: "corpus"},
+		{Lines: []string{"@ C20 count 10,5,1,4 10,7,2,3", "gen 61 9", "gen 61 10"}, Tag: "corpus"},
+		{Lines: []string{"@ C20 count 10,7,2,3 10,5,1,4", "gen 61 9", "gen 61 10"}, Tag: "corpus"},
+		// numerals of 13+ characters whose value does not fit int64 (silent wrap, outside the property)
+		{Lines: []string{"@ C20 id", "p32 38303030303030303030303030", "p32 6730303030303030303030303031", "p32 7a7a7a7a7a7a7a7a7a7a7a7a7a7a7a7a", "p32 37303030303030303030303030"}, Tag: "corpus"},
 	}
 }
 
 var near = []byte("ilouILOUZ!@`{/:9a _-")
 
 func gen(r *core.Rand, tier string) core.Case {
-	switch r.Pick(40, 30, 30) {
+	switch r.Pick(40, 30, 24, 6) {
 	case 0:
 		return genID(r)
 	case 1:
 		return genStr(r)
+	case 2:
+		return genCount(r)
 	}
-	return genCount(r)
+	return genCountRaw(r)
 }
 
 func randID(r *core.Rand) int64 {
@@ -334,6 +343,56 @@ func genCount(r *core.Rand) core.Case {
 	}
 	if big {
 		tag = "count-big-params"
+	}
+	return core.Case{Lines: lines, Tag: tag}
+}
+
+// genCountRaw: the rule slice is installed as given (through reflection): sorted by
+// period with many equal periods, the rules of one period in a random relative order
+// (what an unstable sort may leave), up to 16 rules; 10% unsorted (model tie only).
+func genCountRaw(r *core.Rand) core.Case {
+	nr := r.Range(2, 6)
+	if r.Chance(25) {
+		nr = r.Range(7, 16)
+	}
+	type rule struct{ p, pe, i, im int }
+	var rules []rule
+	p := r.Range(1, 30)
+	for k := 0; k < nr; k++ {
+		if k > 0 && !r.Chance(45) {
+			p += r.Range(1, 40) * []int{1, 1, 7}[r.Intn(3)]
+		}
+		rules = append(rules, rule{p, r.Range(1, 60), r.Range(1, 20), r.Range(1, 6)})
+	}
+	tag := "countraw"
+	if r.Chance(10) {
+		j, k := r.Intn(nr), r.Intn(nr)
+		rules[j], rules[k] = rules[k], rules[j]
+		tag = "countraw-unsorted"
+	}
+	hdr := "@ C20 countraw"
+	for _, q := range rules {
+		hdr += fmt.Sprintf(" %d,%d,%d,%d", q.p, q.pe, q.i, q.im)
+	}
+	lines := []string{hdr}
+	ids := []string{hx(r.Bytes(r.Range(0, 6))), hx([]byte("user:" + strconv.Itoa(r.Intn(1000))))}
+	var diffs []int
+	for _, q := range rules {
+		for d := -1; d <= 1; d++ {
+			if r.Chance(50) {
+				diffs = append(diffs, q.p+d)
+			}
+		}
+	}
+	for k := r.Range(1, 5); k > 0; k-- {
+		diffs = append(diffs, r.Range(-1, p+40))
+	}
+	for _, d := range diffs {
+		id := ids[r.Intn(2)]
+		lines = append(lines, fmt.Sprintf("gen %s %d", id, d))
+		if r.Chance(60) {
+			lines = append(lines, fmt.Sprintf("min %d", d), fmt.Sprintf("max %d", d))
+		}
 	}
 	return core.Case{Lines: lines, Tag: tag}
 }
